@@ -69,6 +69,11 @@ def features(d):
             v = _spec(nd["at"], a)
             if v is not None and v == DEFAULTS.get(a):
                 j = par[i]
+                if j is not None:
+                    w = _spec(d["nodes"][j]["at"], a)
+                    if w is not None and w != v and a in ("fill", "stroke"):
+                        # the effective case: a wrapper between the two makes the direct parent silent
+                        fs.add("explicit-initial-vs-direct-parent:" + a)
                 while j is not None:
                     w = _spec(d["nodes"][j]["at"], a)
                     if w is not None and w != v:
@@ -107,6 +112,11 @@ def run(out, tier):
         nbase = 6 if tier == "quick" else 60
         bases = []
         seen = set()
+        # interactions that must get the exhaustive noise treatment whenever the pools offer them
+        must = ["explicit-initial-vs-direct-parent:fill", "explicit-initial-vs-direct-parent:stroke",
+                "explicit-initial-under-override", "gradref-with-href", "gradref-href-no-own-stops", "clipref",
+                "clip-of-clip", "opacity-group", "defs>gradient-with-href", "use->g", "use->rect", "tag:svg"]
+        covered = set()
         for f in ["mixed", "grad", "clip", "paint", "struct", "stroke"]:
             docs, gens = D.generate_docs(f, nbase * 12, common.seed(), wd, max_nodes=7)
             for g in gens:
@@ -121,6 +131,16 @@ def run(out, tier):
             # feature-greedy choice of the base documents (which documents get the exhaustive
             # noise treatment is a coverage decision, not a judgement)
             have = set()
+            for feat in must:
+                if feat in covered:
+                    continue
+                cands = [d for d in pool if feat in features(d)]
+                if cands:
+                    best = max(cands, key=lambda d: len(features(d) - have))
+                    pool.remove(best)
+                    have |= features(best)
+                    covered |= features(best) & set(must)
+                    bases.append(best)
             for _ in range(nbase):
                 best = max(pool, key=lambda d: len(features(d) - have), default=None)
                 if best is None:
